@@ -37,8 +37,17 @@ func runPair(h *core.History, cfgRef, cfgAlt world.SessCfg, po pairOpts, o *core
 		src := e.Source()
 		a := ref.Input(src, e.Fault)
 		b := alt.Input(src, e.Fault)
-		if a.BudgetHit || b.BudgetHit {
+		if a.BudgetHit {
 			st.Discarded = true
+			break
+		}
+		if b.BudgetHit {
+			// the reference configuration finished well inside the tick budget, the other one ran away
+			o.Viol = &core.Violation{Oracle: "config-equivalence", Event: i, Sig: po.sigPrefix + "|runaway",
+				Detail: fmt.Sprintf("input #%d %q: reference config finishes in %d ticks (%s), the other config exceeds the budget of %d ticks", i, trunc(src, 300), a.Ticks, a.Class, b.Ticks)}
+			if po.sigOf != nil {
+				o.Viol.Sig = po.sigOf(h, i, "runaway")
+			}
 			break
 		}
 		if po.onInput != nil {
